@@ -29,6 +29,7 @@ import Sds.Proofs.Iter
 import Sds.Proofs.RawVec
 import Sds.Proofs.Glue
 import Sds.Proofs.GenEqIdx
+import Sds.Proofs.GenEqBv
 
 namespace Sds.C01
 open Sds Outcome IterProofs
@@ -355,5 +356,36 @@ theorem rank_support_as_translated_from_source (m : Mode) (s : RankSup) (v : Raw
 /-- the hypothesis is met by a support as built, and the translated code returns the rank -/
 example : Generated.gen_RankSupport_rank_unchecked .checked (RankSup.build (RawVec.ofBits [true, false, true, true]))
     (RawVec.ofBits [true, false, true, true]) 3 = ok 2 := by decide
+
+/-! **The query methods of `BitVector` as translated from the source on this run** (`Generated/FnsBv.lean`): `len`,
+`count_ones`, `get`, `rank`, `select`, `select_zero`, `select_iter`, `select_zero_iter`, `predecessor`, `successor`,
+`one_iter`, `zero_iter`, `iter` — the range tests (`index >= len`, `rank >= count`), the `unwrap` of the optional support,
+the `saturating_add` of the repair of F2, the cursors of the iterators returned.  The code as it is NOW is the model
+function the theorems above are about (`rankQ`, `selectT`, `selectIterT`, `predecessorQ`, `successorQ`); the only
+hypothesis is the one of `rank_support_as_translated_from_source` (rank samples are ranks of a vector shorter than 2^64). -/
+theorem bit_vector_queries_as_translated_from_source (m : Mode) (b : BitVector) (i r v : Nat)
+    (hs : ∀ s, b.rank = some s → ∀ k (h : k < s.samples.size), (s.samples[k]).1.toNat + 575 < U64) :
+    Generated.gen_BitVector_len m b = ok b.len ∧
+    Generated.gen_BitVector_count_ones m b = ok b.countOnes ∧
+    Generated.gen_BitVector_get m b i = b.get i ∧
+    Generated.gen_BitVector_rank m b i = b.rankQ i ∧
+    Generated.gen_BitVector_select m b r = b.selectQ m r ∧
+    Generated.gen_BitVector_select_zero m b r = b.selectZeroQ m r ∧
+    Generated.gen_BitVector_select_iter m b r = b.selectIterT .ident m r ∧
+    Generated.gen_BitVector_select_zero_iter m b r = b.selectIterT .compl m r ∧
+    Generated.gen_BitVector_predecessor m b v = b.predecessorQ m v ∧
+    Generated.gen_BitVector_successor m b v = b.successorQ m v ∧
+    Generated.gen_BitVector_one_iter m b = ok (OneIterSt.full .ident b) ∧
+    Generated.gen_BitVector_zero_iter m b = ok (OneIterSt.full .compl b) ∧
+    Generated.gen_BitVector_iter m b = ok ⟨0, b.len⟩ :=
+  ⟨GenEq.bv_len_eq m b, GenEq.bv_count_ones_eq m b, GenEq.bv_get_eq m b i, GenEq.bv_rank_eq m b i hs,
+   GenEq.bv_select_eq m b r, GenEq.bv_select_zero_eq m b r, GenEq.bv_select_iter_eq m b r,
+   GenEq.bv_select_zero_iter_eq m b r, GenEq.bv_predecessor_eq m b v hs, GenEq.bv_successor_eq m b v hs,
+   GenEq.bv_one_iter_eq m b, GenEq.bv_zero_iter_eq m b, GenEq.bv_iter_eq m b⟩
+
+/-- the translated `predecessor(usize::MAX)` on a vector with its supports returns the last set bit in the checked build
+(finding F2: the unclamped `value + 1` panicked here) -/
+example : Generated.gen_BitVector_predecessor .checked (BitVector.ofRaw (RawVec.ofBits [true, false, true])).enableAll (U64 - 1)
+    = ok ⟨(1, 2), (2, 3)⟩ := by decide +kernel
 
 end Sds.C01
